@@ -14,12 +14,9 @@ func init() { corrTable["C19"] = corrC19 }
 
 // known-finding classes (KNOWN_FINDINGS.txt); each is a predicate on the spec value T
 const (
-	c19D24  = "deliver/first-octet-bit6-or-bit7-lost"                     // TP-UDHI or TP-RP set in SMS-DELIVER
-	c19D19s = "scts/negative-zone"                                        // sign bit of the zone set
-	c19D19v = "vp-absolute/negative-zone"                                 // same in an absolute validity period
-	c19D22  = "user-data/trailing-zero-octets-trimmed"                    // user data ends in 0x00
-	c19D21  = "address/alphanumeric-odd-semi-octet-count"                 // alphanumeric address whose useful semi-octet count is odd
-	c19D16  = "address/alphanumeric-septet-09-decoded-as-small-c-cedilla" // GSM 03.38 has capital C cedilla at 0x09
+	c19D21 = "address/alphanumeric-8k+7-septets-fill-bits-decoded-as-at-sign" // 7 septets: seven fill bits read as a character
+	c19CR8 = "address/alphanumeric-8-septets-ending-in-cr-loses-the-cr"       // the decoder takes the CR for the filler
+	c19D16 = "address/alphanumeric-septet-09-decoded-as-small-c-cedilla"      // GSM 03.38 has capital C cedilla at 0x09
 )
 
 type c19Segs struct {
@@ -36,33 +33,20 @@ func (s *c19Segs) bytes() []byte {
 	return out
 }
 
-// what the code is known to write back for a time stamp with the sign bit set (D19):
-// the tens nibble is read as 8..15, i.e. the zone as 80..159 quarter hours; from 100 on
-// the value has three decimal digits and the field grows to eight octets
-func c19KnownSCTS(t specTime) []byte {
-	b := specSCTS(t)
-	if !t.ZNeg {
-		return b
-	}
-	lo, hi := int(b[6]&15), int(b[6]>>4)
-	z := lo*10 + hi
-	if z < 100 {
-		return b
-	}
-	return append(b[:6:6], byte((z/10%10)<<4|z/100), byte(0xF0|z%10))
-}
-
+// D21 (what is left of it): with 8k+7 septets the seven fill bits are decoded as one more septet ('@'),
+// and the length octet comes back as that of 8k+8 septets
 func c19KnownAddr(a specAddr) []byte {
 	b := specTPAddr(a)
-	if a.Alnum {
-		b[0] = byte(2 * (len(b) - 2)) // D21: two per octet instead of the useful semi-octets
+	if addrIsD21(a) {
+		b[0] = byte(((len(a.Septets)+1)*7 + 3) / 4)
 	}
 	return b
 }
 
-func c19TrimZeros(b []byte) []byte { return bytes.TrimRight(b, "\x00") }
-
-func addrIsD21(a specAddr) bool { return a.Alnum && ((7*len(a.Septets)+3)/4)%2 == 1 }
+func addrIsD21(a specAddr) bool { return a.Alnum && len(a.Septets)%8 == 7 }
+func addrIsCR8(a specAddr) bool {
+	return a.Alnum && len(a.Septets)%8 == 0 && len(a.Septets) > 0 && a.Septets[len(a.Septets)-1] == 13
+}
 
 func specDigitsString(d []int) string {
 	b := make([]byte, len(d))
@@ -75,10 +59,19 @@ func specDigitsString(d []int) string {
 // the GSM 03.38 default alphabet, basic table (spec side of the alphanumeric address text)
 var gsmBasic = []rune("@£$¥èéùìòÇ\nØø\rÅåΔ_ΦΓΛΩΠΨΣΘΞ\x1bÆæßÉ !\"#¤%&'()*+,-./0123456789:;<=>?¡ABCDEFGHIJKLMNOPQRSTUVWXYZÄÖÑÜ§¿abcdefghijklmnopqrstuvwxyzäöñüà")
 
+// GSM 03.38 6.2.1.1 extension table: code after ESC -> character
+var gsmExt = map[int]rune{10: 0x0C, 20: '^', 40: '{', 41: '}', 47: '\\', 60: '[', 61: '~', 62: ']', 64: '|', 101: 0x20AC}
+var gsmExtCodes = []int{10, 20, 40, 41, 47, 60, 61, 62, 64, 101}
+
 func specAlnumText(ss []int) string {
-	rs := make([]rune, len(ss))
-	for i, s := range ss {
-		rs[i] = gsmBasic[s]
+	var rs []rune
+	for i := 0; i < len(ss); i++ {
+		if ss[i] == 27 && i+1 < len(ss) {
+			i++
+			rs = append(rs, gsmExt[ss[i]])
+			continue
+		}
+		rs = append(rs, gsmBasic[ss[i]])
 	}
 	return string(rs)
 }
@@ -119,15 +112,22 @@ func (c *c19Ctx) addrCheck(field string, npi, ton byte, no string, a specAddr, i
 		class := "value/" + field + "-digits"
 		if a.Alnum {
 			class = "value/" + field + "-text"
-			// expected under the listed findings: septet 0x09 as U+00E7 (D16), a trailing '@' from the seven fill bits (D21)
+			// expected under the listed findings: septet 0x09 as U+00E7 (D16), a trailing '@' from seven fill
+			// bits (D21), the final CR of eight septets taken for the filler
 			known, has09 := strings.ReplaceAll(want, "Ç", "ç"), strings.Contains(want, "Ç")
-			pad := len(a.Septets)%8 == 7
+			pad, cr8 := addrIsD21(a), addrIsCR8(a)
 			if pad {
 				known += "@"
 			}
-			if no == known && (has09 || pad) {
+			if cr8 {
+				known = strings.TrimSuffix(known, "\r")
+			}
+			if no == known && (has09 || pad || cr8) {
 				if has09 {
 					c.fail(c19D16, field+": decoded address text has U+00E7 where the default alphabet has U+00C7", in, fmt.Sprintf("%q", no), fmt.Sprintf("%q", want))
+				}
+				if cr8 {
+					c.fail(c19CR8, field+": eight septets ending in CR are decoded without the CR", in, fmt.Sprintf("%q", no), fmt.Sprintf("%q", want))
 				}
 				if !pad {
 					return
@@ -204,11 +204,7 @@ func (c *c19Ctx) deliver(t specDeliver, label string) {
 		c.fail("value/pid-dcs", "PID / DCS differ", key, fmt.Sprintf("pid=%d dcs=%d", p.ProtocolIdentifier, p.DataCoding), fmt.Sprintf("pid=%d dcs=%d", t.PID, t.DCS))
 	}
 	if !c19TimeEqual(p.ServiceCentreTimestamp.Time, t.SCTS) {
-		class := "value/scts"
-		if t.SCTS.ZNeg {
-			class = c19D19s
-		}
-		c.fail(class, "decoded time stamp is not the instant and offset the standard assigns", key,
+		c.fail("value/scts", "decoded time stamp is not the instant and offset the standard assigns", key,
 			p.ServiceCentreTimestamp.Time.Format(time.RFC3339), fmt.Sprintf("%+v", t.SCTS))
 	}
 	c.udCheck(p.UserData, t.UD, key)
@@ -220,27 +216,15 @@ func (c *c19Ctx) deliver(t specDeliver, label string) {
 	var k c19Segs
 	var classes []string
 	k.add("SC", specSCAddr(t.SC)...)
-	fo := specDeliverFO(t)
-	if t.UDHI || t.RP {
-		fo &= 0x3F
-		classes = append(classes, c19D24)
-	}
-	k.add("FO", fo)
+	k.add("FO", specDeliverFO(t))
 	k.add("OA", c19KnownAddr(t.OA)...)
 	if addrIsD21(t.OA) {
 		classes = append(classes, c19D21)
 	}
 	k.add("PID", byte(t.PID), byte(t.DCS))
-	k.add("SCTS", c19KnownSCTS(t.SCTS)...)
-	if t.SCTS.ZNeg && !bytes.Equal(c19KnownSCTS(t.SCTS), specSCTS(t.SCTS)) {
-		classes = append(classes, c19D19s)
-	}
-	ud := specUDOctets(t.UD)
+	k.add("SCTS", specSCTS(t.SCTS)...)
 	k.add("UDL", byte(specUDL(t.UD)))
-	k.add("UD", c19TrimZeros(ud)...)
-	if len(ud) > 0 && ud[len(ud)-1] == 0 {
-		classes = append(classes, c19D22)
-	}
+	k.add("UD", specUDOctets(t.UD)...)
 	c.roundtrip(in, o.Out, k.bytes(), classes, "deliver/"+label)
 	if c.nSample < 5 {
 		c.nSample++
@@ -293,12 +277,7 @@ func (c *c19Ctx) submit(t specSubmit, label string) {
 	case 3:
 		d, ok := p.ValidityPeriod.(sms.Time)
 		if !ok || !c19TimeEqual(d.Time, t.VP.Abs) {
-			if t.VP.Abs.ZNeg && ok {
-				c.fail(c19D19v, "decoded absolute validity period is not the instant and offset the standard assigns", key,
-					d.Time.Format(time.RFC3339), fmt.Sprintf("%+v", t.VP.Abs))
-			} else {
-				vpBad(fmt.Sprintf("%+v", p.ValidityPeriod), fmt.Sprintf("%+v", t.VP.Abs))
-			}
+			vpBad(fmt.Sprintf("%+v", p.ValidityPeriod), fmt.Sprintf("%+v", t.VP.Abs))
 		}
 	}
 	c.udCheck(p.UserData, t.UD, key)
@@ -314,20 +293,9 @@ func (c *c19Ctx) submit(t specSubmit, label string) {
 		classes = append(classes, c19D21)
 	}
 	k.add("PID", byte(t.PID), byte(t.DCS))
-	if t.VP.Kind == 3 {
-		k.add("VP", c19KnownSCTS(t.VP.Abs)...)
-		if t.VP.Abs.ZNeg && !bytes.Equal(c19KnownSCTS(t.VP.Abs), specSCTS(t.VP.Abs)) {
-			classes = append(classes, c19D19v)
-		}
-	} else {
-		k.add("VP", specVPOctets(t.VP)...)
-	}
-	ud := specUDOctets(t.UD)
+	k.add("VP", specVPOctets(t.VP)...)
 	k.add("UDL", byte(specUDL(t.UD)))
-	k.add("UD", c19TrimZeros(ud)...)
-	if len(ud) > 0 && ud[len(ud)-1] == 0 {
-		classes = append(classes, c19D22)
-	}
+	k.add("UD", specUDOctets(t.UD)...)
 	c.roundtrip(in, o.Out, k.bytes(), classes, "submit/"+label)
 	if c.nSample < 10 && c.nSample >= 5 {
 		c.nSample++
@@ -356,15 +324,24 @@ func c19NumAddr(r *Rng, n int, leadingZero bool) specAddr {
 	return specAddr{TON: ton, NPI: r.Intn(16), Digits: c19Digits(r, n, leadingZero)}
 }
 
-// alphanumeric text: basic-table characters other than CR and ESC
+// alphanumeric text of exactly n septets over the full GSM 03.38 repertoire: basic-table characters
+// (CR included) and extension-table characters (ESC + code, two septets)
 func c19Alnum(r *Rng, n int) specAddr {
-	ss := make([]int, n)
-	for i := range ss {
-		for {
-			ss[i] = r.Intn(128)
-			if ss[i] != 13 && ss[i] != 27 {
-				break
+	var ss []int
+	for len(ss) < n {
+		switch {
+		case n-len(ss) >= 2 && r.Intn(5) == 0:
+			ss = append(ss, 27, gsmExtCodes[r.Intn(len(gsmExtCodes))])
+		case r.Intn(12) == 0:
+			ss = append(ss, 13)
+		case r.Intn(16) == 0:
+			ss = append(ss, 9)
+		default:
+			c := r.Intn(128)
+			if c == 27 {
+				c = 0
 			}
+			ss = append(ss, c)
 		}
 	}
 	return specAddr{TON: 5, NPI: r.Intn(16), Septets: ss, Alnum: true}
@@ -478,7 +455,7 @@ func corrC19(r *Run) {
 		}
 	}
 	for n := 1; n <= 11; n++ {
-		for k := 0; k < r.N(2, 8); k++ {
+		for k := 0; k < r.N(6, 24); k++ {
 			d := c19BaseDeliver(g)
 			d.OA = c19Alnum(g, n)
 			c.deliver(d, fmt.Sprintf("OA alphanumeric %d", n))
@@ -486,6 +463,29 @@ func corrC19(r *Run) {
 			s.DA = c19Alnum(g, n)
 			c.submit(s, fmt.Sprintf("DA alphanumeric %d", n))
 		}
+	}
+	// eight septets ending in CR, seven septets ending in an extension character, all-extension texts
+	for k := 0; k < r.N(4, 16); k++ {
+		a := c19Alnum(g, 8)
+		a.Septets[7] = 13
+		if a.Septets[6] == 27 {
+			a.Septets[6] = 65
+		}
+		s := c19BaseSubmit(g)
+		s.DA = a
+		c.submit(s, "DA alphanumeric 8 ending in CR")
+		b := c19Alnum(g, 5)
+		b.Septets = append(b.Septets, 27, gsmExtCodes[g.Intn(len(gsmExtCodes))])
+		d := c19BaseDeliver(g)
+		d.OA = b
+		c.deliver(d, "OA alphanumeric 7 ending in extension character")
+		e := specAddr{TON: 5, NPI: g.Intn(16), Alnum: true}
+		for i := 0; i < 1+g.Intn(5); i++ {
+			e.Septets = append(e.Septets, 27, gsmExtCodes[g.Intn(len(gsmExtCodes))])
+		}
+		s = c19BaseSubmit(g)
+		s.DA = e
+		c.submit(s, "DA alphanumeric extension characters only")
 	}
 	// every first octet of both types
 	for fo := 0; fo < 64; fo++ {
@@ -532,6 +532,15 @@ func corrC19(r *Run) {
 		s := c19BaseSubmit(g)
 		s.VP = specVP{Kind: 3, Abs: c19Time(g, zq)}
 		c.submit(s, "absolute VP")
+	}
+	{ // minus zero: sign bit set, magnitude 0 (a pinned repository sample has zone octet 0x08)
+		d := c19BaseDeliver(g)
+		d.SCTS = c19Time(g, 0)
+		d.SCTS.ZNeg = true
+		c.deliver(d, "time zone minus zero")
+		s := c19BaseSubmit(g)
+		s.VP = specVP{Kind: 3, Abs: d.SCTS}
+		c.submit(s, "absolute VP minus zero")
 	}
 	for k := 0; k < r.N(20, 200); k++ {
 		d := c19BaseDeliver(g)
